@@ -293,3 +293,27 @@ package interpreter
 //@ func interpreter.opcodeWithin
 //@   opt forall-patterns 1
 //@   ensures[C05.opcodeWithin] (=> (= err nil) (spec.stack_result t 3 (ite (and (<= (old (spec.top_num t 1)) (old (spec.top_num t 2))) (< (old (spec.top_num t 2)) (old (spec.top_num t 0)))) 1 0)))
+
+// stack manipulation primitives (C05, partial): effect on depth and on the item headers
+//@ func interpreter.(*stack).PeekByteArray
+//@   pure
+//@   ensures[C05.peek] (and (= (= err nil) (and (<= 0 idx) (< idx (len (. s stk))))) (=> (= err nil) (= r0 (at (. s stk) (- (- (len (. s stk)) 1) idx)))))
+//@ func interpreter.(*stack).nipN
+//@   ensures[C05.nip] (=> (= err nil) (and (= (len (. s stk)) (- (old (len (. s stk))) 1)) (= r0 (old (at (. s stk) (- (- (len (. s stk)) 1) idx))))))
+//@   ensures[C05.nip_below] (=> (= err nil) (forall ((k Int)) (=> (and (<= 0 k) (< k (- (- (old (len (. s stk))) 1) idx))) (= (at (. s stk) k) (old (at (. s stk) k))))))
+//@   ensures[C05.nip_above] (=> (= err nil) (forall ((k Int)) (=> (and (<= (- (- (old (len (. s stk))) 1) idx) k) (< k (len (. s stk)))) (= (at (. s stk) k) (old (at (. s stk) (+ k 1)))))))
+//@ func interpreter.(*stack).PickN
+//@   opt forall-patterns 1
+//@   ensures[C05.pick] (and (= (= err nil) (and (<= 0 n) (< n (old (len (. s stk)))))) (=> (= err nil) (and (= (len (. s stk)) (+ (old (len (. s stk))) 1)) (= (at (. s stk) (old (len (. s stk)))) (old (at (. s stk) (- (- (len (. s stk)) 1) n)))))))
+//@   ensures[C05.pick_rest] (=> (= err nil) (forall ((k Int)) (=> (and (<= 0 k) (< k (old (len (. s stk))))) (= (at (. s stk) k) (old (at (. s stk) k))))))
+//@ func interpreter.(*stack).RollN
+//@   opt forall-patterns 1
+//@   ensures[C05.roll] (and (= (= err nil) (and (<= 0 n) (< n (old (len (. s stk)))))) (=> (= err nil) (and (= (len (. s stk)) (old (len (. s stk)))) (= (at (. s stk) (- (len (. s stk)) 1)) (old (at (. s stk) (- (- (len (. s stk)) 1) n)))))))
+//@   ensures[C05.roll_below] (=> (= err nil) (forall ((k Int)) (=> (and (<= 0 k) (< k (- (- (len (. s stk)) 1) n))) (= (at (. s stk) k) (old (at (. s stk) k))))))
+//@   ensures[C05.roll_above] (=> (= err nil) (forall ((k Int)) (=> (and (<= (- (- (len (. s stk)) 1) n) k) (< k (- (len (. s stk)) 1))) (= (at (. s stk) k) (old (at (. s stk) (+ k 1)))))))
+//@ func interpreter.(*stack).DropN
+//@   opt forall-patterns 1
+//@   ensures[C05.drop] (=> (= err nil) (and (>= n 1) (= (len (. s stk)) (- (old (len (. s stk))) n))))
+//@   ensures[C05.drop_rest] (=> (= err nil) (forall ((k Int)) (=> (and (<= 0 k) (< k (len (. s stk)))) (= (at (. s stk) k) (old (at (. s stk) k))))))
+//@   loop 0 invariant (and (<= 0 n) (<= n n0) (= (len (. s stk)) (- (old (len (. s stk))) (- n0 n))))
+//@   loop 0 invariant (forall ((k Int)) (=> (and (<= 0 k) (< k (len (. s stk)))) (= (at (. s stk) k) (old (at (. s stk) k)))))
